@@ -6,6 +6,8 @@ import ModbusVerif.Model.Lifecycle
 -/
 namespace Modbus.Lifecycle
 
+/-! ### the connection table -/
+
 theorem find_put (l : List (ConnId × Conn)) (c c' : ConnId) (v : Conn) :
     find (put l c v) c' = if c' = c then some v else find l c' := by
   induction l with
@@ -106,6 +108,7 @@ theorem find_ne_none_of_phase {s : State} {c : ConnId} (h : (s.conn c).phase ≠
     find s.conns c ≠ none := by
   intro h0; rw [conn_fresh_of_find_none h0] at h; exact h rfl
 
+/-- the inductive invariant of the life-cycle machine -/
 structure Inv (s : State) : Prop where
   started_open : s.started = s.listenerOpen
   acc_len : s.acceptors.length = s.gen
@@ -132,7 +135,7 @@ theorem inv_init (m : Nat) : Inv (init m) := by
   constructor <;> simp [init, State.conn, find, Conn.fresh, Phase.inList, Phase.session,
     Phase.isRejected, Phase.wasAdmitted, Phase.terminal, Phase.held]
 
-
+/-! ### every step preserves the invariant -/
 
 theorem conn_mk (a : Bool) (b : Nat) (c : Bool) (d e : List ConnId) (cs : List (ConnId × Conn))
     (g : List Acceptor) (h : Nat) (i : List Event) (x : ConnId) :
@@ -143,7 +146,7 @@ theorem ite_getD {α : Type} (p : Prop) [Decidable p] (a : α) (o : Option α) (
 
 attribute [local grind] Phase.inList Phase.session Phase.isRejected Phase.wasAdmitted Phase.terminal Phase.held
 
-
+/-- normal form of the post-state of a step: fields projected, table lookups as `s.conn` -/
 macro "lc_norm" : tactic => `(tactic|
   simp only [State.setPhase, State.setConn, conn_mk, find_put, ite_getD, conn_fold, keys_put])
 
@@ -211,7 +214,6 @@ theorem inv_request {s : State} (h : Inv s) (c : ConnId) : Inv (doRequest s c) :
   · constructor <;> lc_norm
     all_goals grind [release]
   · constructor <;> assumption
-
 
 theorem mem_swapRemove {l : List ConnId} (hn : l.Nodup) (c x : ConnId) :
     x ∈ swapRemove l c ↔ x ∈ l ∧ x ≠ c := by
